@@ -143,6 +143,94 @@ HARNESSES = {
                '(False, True, list/tuple/set covering everything, list and set covering part, empty list); static '
                'registration'),
 }
-OUTSIDE = 'dynamic registration (known = resolvable through the file\'s imports) is examined in the C19 fixture; see DESIGN.md'
+OUTSIDE = 'more than 4 statements; skip lists other than the 8/4 forms listed'
 ASSUMPTIONS = ['stored placeholders are observed through the private gin.config._CONFIG and compared by (selector, evaluate)',
                'interpretation: an unknown reference not covered by the list is an error wherever it occurs, also inside a statement that is itself skipped']
+
+
+# ---- dynamic registration: 'known' = resolvable through the file's own imports ----------------
+import os as _os
+import sys as _sys
+_sys.path.insert(0, _os.path.join(_os.path.dirname(_os.path.dirname(_os.path.dirname(
+    _os.path.abspath(__file__)))), 'fixtures'))
+import vfx.alpha.mod as _A
+
+DR = 'from __gin__ import dynamic_registration\nimport vfx.alpha.mod as am\n'
+DKINDS = [
+    # (line, unknown name targeted / referenced or None, entries applied)
+    ('am.fn.x = %vwc.V0', None, None, ('fn', 'x')),
+    ('am.nosuch.x = 1', 'am.nosuch', None, None),
+    ('zz.fn.x = 1', 'zz.fn', None, None),
+    ('am.consumer.p = @am.Cls()', None, None, ('consumer', 'p')),
+    ('am.consumer.q = @am.nosuch()', None, 'am.nosuch', ('consumer', 'q')),
+    ('am.Cls.x = 5', None, None, ('Cls', 'x')),
+]
+DSKIPS = [False, True, ['am.nosuch', 'zz.fn'], ['zz.fn']]
+
+
+def c15_dynamic(n: int, k0: int, k1: int, k2: int, skip: int, pre: bool, v0: int) -> bool:
+  """
+  pre: 1 <= n <= 3 and 0 <= k0 < 6 and 0 <= k1 < 6 and 0 <= k2 < 6 and 0 <= skip < 4
+  """
+  from vf.harness import c19
+  world.fresh()
+  c19.cleanup_vfx()
+  ks = [rt.pick(k, 6) for k in (k0, k1, k2)[:n]]
+  skip = rt.pick(skip, 4)
+  pre = rt.flag(pre)
+  sk = DSKIPS[skip]
+  gin.constant('vwc.V0', v0)
+  rt.sig(('dynamic', tuple(ks), skip, pre), nontrivial=True)
+  try:
+    with rt.native():
+      if pre:
+        # an earlier, unrelated parse already registered everything: must make no difference
+        gin.parse_config(DR + 'am.fn.y = 1\nam.Cls.x = 0\nam.consumer.q = 0\n')
+        gc._CONFIG.clear(); gc._CONFIG_PROVENANCE.clear()
+      want, error = [], None
+      for k in ks:
+        line, target, ref, entry = DKINDS[k]
+        if ref is not None and not covered(ref, sk):
+          error = (NameError, AttributeError, ValueError)
+          break
+        if target is not None:
+          if covered(target, sk):
+            continue
+          error = (NameError, AttributeError, ValueError)
+          break
+        want.append(entry)
+      text = DR + '\n'.join(DKINDS[k][0] for k in ks) + '\n'
+      exc = None
+      try:
+        gin.parse_config(text, skip_unknown=sk)
+      except Exception as e:
+        exc = e
+      if error is not None:
+        if not isinstance(exc, error):
+          return rt.no('uncovered unknown must raise, got %r' % (exc,))
+      elif exc is not None:
+        return rt.no('unexpected %r' % (exc,))
+      got = sorted((sel.split('.')[-1], p) for (sc, sel), d in gc._CONFIG.items() for p in d)
+      if got != sorted(set(want)):
+        return rt.no('bindings applied %r, expected %r (skip_unknown=%r, pre-registered=%r)' %
+                     (got, sorted(set(want)), sk, pre))
+    if error is None and 0 in ks:
+      del _A.CALLS[:]
+      gin.get_configurable(_A.fn)()
+      return rt.same('importable configurable configured', _A.CALLS[-1][1], v0)
+    return True
+  finally:
+    c19.cleanup_vfx()
+
+
+HARNESSES['c15_dynamic'] = dict(
+    fn='c15_dynamic',
+    anchors=['gin.config:_should_skip', 'gin.config:_resolve_selector'],
+    smoke=[dict(n=3, k0=0, k1=1, k2=3, skip=1, pre=False, v0=4),
+           dict(n=2, k0=5, k1=4, k2=0, skip=2, pre=True, v0=4)],
+    tiers={'quick': dict(split=dict(k0=list(range(6)), skip=[0, 1, 2, 3]), fixed=dict(n=3), budget_s=100),
+           'thorough': dict(split=dict(k0=list(range(6)), skip=[0, 1, 2, 3], pre=[False, True]),
+                            fixed=dict(n=3), budget_s=300)},
+    bounds='dynamic registration against the fixture package: 3 statements from 6 kinds (importable and not yet '
+           'registered function / class / reference, missing attribute, name not imported, reference to a missing '
+           'attribute) x 4 forms of skip_unknown x registry pre-populated by an earlier parse or not')
